@@ -145,8 +145,16 @@ def run(ctx, R, tier):
                 return "?" + a.value
         return "?" + unparse(a, 40)
     enc = {codec_of(c, "utf-8") for c in walk_no_nested(bs.node) if isinstance(c, ast.Call) and isinstance(c.func, ast.Attribute) and c.func.attr == "encode"}
+    received = set()
+    for st, t, k in stores_in(lns.node):
+        if isinstance(t, ast.Name) and isinstance(getattr(st, "value", None), ast.Call) and isinstance(st.value.func, ast.Attribute) and st.value.func.attr in ("recvfrom", "recv"):
+            tg = st.targets[0] if isinstance(st, ast.Assign) else None
+            if isinstance(tg, ast.Tuple) and tg.elts and isinstance(tg.elts[0], ast.Name):
+                received.add(tg.elts[0].id)
+            elif isinstance(tg, ast.Name):
+                received.add(tg.id)
     dec = {codec_of(c, "utf-8") for c in walk_no_nested(lns.node) if isinstance(c, ast.Call) and isinstance(c.func, ast.Attribute) and c.func.attr == "decode"
-           and isinstance(c.func.value, ast.Name) and c.func.value.id == "data"}
+           and isinstance(c.func.value, ast.Name) and c.func.value.id in received}
     if not enc or not dec:
         raise AnalysisError("broadcast lookup: the encode in BroadcastServer.processRequest or the decode of `data` in locate_ns vanished")
     R.check(len(enc) == 1 and enc == dec, "C19-R5", "broadcast|responder-and-locator-use-one-codec", "the uri text is encoded by the broadcast responder with the codec locate_ns decodes it with (%s)" % sorted(enc),
